@@ -123,6 +123,7 @@ type G struct {
 	Tier  string
 	Cases []Case
 	gen   string
+	valid bool // generators draw only well-formed counts/types while set (fixed-shape rounds)
 }
 
 func (g *G) quick() bool { return g.Tier != "thorough" }
